@@ -228,15 +228,17 @@ type c10cfg struct {
 	trans   string // none | id | custom
 	def     bool
 	backend string // mock | badger
+	place   string // "": registered on the service; nested: on a mux mounted into another mux before that one was mounted on the service, handler added last
 }
 
 func (c c10cfg) String() string {
-	return fmt.Sprintf("%s/trans=%s/default=%v/%s", c.typ, c.trans, c.def, c.backend)
+	return fmt.Sprintf("%s/trans=%s/default=%v/%s%s", c.typ, c.trans, c.def, c.backend, map[bool]string{true: "/" + c.place}[c.place != ""])
 }
 
 type c10world struct {
 	thook atomic.Value // func(): called at the start of the custom transformer's Transform (get-race scenario)
 	cfg   c10cfg
+	base  string // resource name without the id
 	h     *svcHarness
 	st    store.Store
 	clean func()
@@ -246,7 +248,10 @@ type c10world struct {
 var c10vals = []interface{}{1, `a"b`, res.Ref("test.other.x"), res.SoftRef("test.soft.y"), res.DataValue[map[string]interface{}]{Data: map[string]interface{}{"x": []int{1}}}, nil, true, 2.5}
 
 func newC10World(cfg c10cfg) (*c10world, error) {
-	w := &c10world{cfg: cfg}
+	w := &c10world{cfg: cfg, base: "test.r."}
+	if cfg.place == "nested" {
+		w.base = "test.v1.lib.r."
+	}
 	switch cfg.backend {
 	case "badger":
 		db, clean, err := OpenBadger()
@@ -356,7 +361,16 @@ func newC10World(cfg c10cfg) (*c10world, error) {
 	if cfg.typ == "collection" {
 		typ = res.Collection
 	}
-	if pv := core.Catch(func() { s.Handle(pattern, typ, sh) }); pv != nil {
+	reg := func() { s.Handle(pattern, typ, sh) }
+	if cfg.place == "nested" {
+		reg = func() {
+			api, books := res.NewMux(""), res.NewMux("")
+			api.Mount("lib", books)
+			s.Mount("v1", api)
+			books.Handle(pattern, typ, sh)
+		}
+	}
+	if pv := core.Catch(reg); pv != nil {
 		w.clean()
 		return nil, fmt.Errorf("Handle panicked: %v", pv)
 	}
@@ -378,7 +392,7 @@ func (w *c10world) storeID(id string) string {
 	case "custom":
 		return "k-" + id
 	}
-	return "test.r." + id
+	return w.base + id
 }
 
 // mutate applies one store mutation; v == nil deletes.
@@ -439,7 +453,7 @@ func (w *c10world) mutateSeq(id string, vs []interface{}) (err error) {
 // observeSeq is observe for a transaction with several operations; only coherence is judged for it
 // (each operation may publish, so "nothing published when nothing changed" is not promised for the whole).
 func (w *c10world) observeSeq(id string, vs []interface{}, dbg string) (rec, error) {
-	rid := "test.r." + id
+	rid := w.base + id
 	before, err := w.h.get(rid)
 	if err != nil {
 		return nil, err
@@ -471,7 +485,7 @@ func (w *c10world) observeSeq(id string, vs []interface{}, dbg string) (rec, err
 // another goroutine mutates the resource. The client takes the get response as its base and applies the
 // events published after it; that must give what a fresh get returns.
 func (w *c10world) getRace(id string, v interface{}, dbg string) (rec, error) {
-	rid := "test.r." + id
+	rid := w.base + id
 	var fired int32
 	mdone := make(chan error, 1)
 	w.thook.Store(func() {
@@ -525,7 +539,7 @@ func (w *c10world) getRace(id string, v interface{}, dbg string) (rec, error) {
 
 // observe performs a mutation and records before / events / after.
 func (w *c10world) observe(id string, v interface{}, dbg string) (rec, error) {
-	rid := "test.r." + id
+	rid := w.base + id
 	before, err := w.h.get(rid)
 	if err != nil {
 		return nil, err
@@ -645,7 +659,10 @@ func RunC10(c *core.Ctx) {
 		for _, tr := range []string{"none", "id", "custom", "failing"} {
 			for _, def := range []bool{false, true} {
 				for _, be := range []string{"mock", "badger"} {
-					cfgs = append(cfgs, c10cfg{typ, tr, def, be})
+					cfgs = append(cfgs, c10cfg{typ: typ, trans: tr, def: def, backend: be})
+					if be == "mock" && !def {
+						cfgs = append(cfgs, c10cfg{typ: typ, trans: tr, backend: be, place: "nested"})
+					}
 				}
 			}
 		}
@@ -691,7 +708,7 @@ func RunC10(c *core.Ctx) {
 					continue
 				}
 				if cfg.trans == "custom" && step == 2 && v != nil {
-					if before, _ := w.h.get("test.r." + id); before != nil && before["t"] != "missing" {
+					if before, _ := w.h.get(w.base + id); before != nil && before["t"] != "missing" {
 						r, err := w.getRace(id, v, fmt.Sprintf("history %d step %d", hI, step))
 						add(cfg, r, err)
 						continue
